@@ -13,6 +13,17 @@ pub fn exec7(prop: &str, op: &str, line: &str, args: &[SExp]) -> Option<CaseResu
     })
 }
 
+/// CPU time of the calling thread: unlike the wall clock it does not grow when other processes take the cores
+pub fn cpu_secs() -> f64 {
+    let mut ts = libc::timespec { tv_sec: 0, tv_nsec: 0 };
+    // SAFETY: plain libc call writing into a local struct
+    let rc = unsafe { libc::clock_gettime(libc::CLOCK_THREAD_CPUTIME_ID, &mut ts) };
+    if rc != 0 {
+        return 0.0;
+    }
+    ts.tv_sec as f64 + ts.tv_nsec as f64 * 1e-9
+}
+
 pub struct Measured {
     pub len: usize,
     pub consumed: Option<usize>,
@@ -27,9 +38,9 @@ pub struct Measured {
 pub fn measure(input: &[u8]) -> Measured {
     let data = input.to_vec();
     let (b0, c0) = crate::alloc::snapshot();
-    let t0 = std::time::Instant::now();
+    let t0 = cpu_secs();
     let r = ipp::parser::IppParser::new(ipp::reader::IppReader::new(std::io::Cursor::new(data))).parse_parts();
-    let secs = t0.elapsed().as_secs_f64();
+    let secs = cpu_secs() - t0;
     let (b1, c1) = crate::alloc::snapshot();
     let (consumed, outcome) = match r {
         Ok((h, a, rd)) => {
@@ -64,9 +75,9 @@ impl futures_util::io::AsyncRead for Pieces {
 pub fn measure_async(input: &[u8], piece: usize) -> Measured {
     let src = Pieces { data: input.to_vec(), pos: 0, piece };
     let (b0, c0) = crate::alloc::snapshot();
-    let t0 = std::time::Instant::now();
+    let t0 = cpu_secs();
     let r = futures_executor::block_on(ipp::parser::AsyncIppParser::new(ipp::reader::AsyncIppReader::new(src)).parse_parts());
-    let secs = t0.elapsed().as_secs_f64();
+    let secs = cpu_secs() - t0;
     let (b1, c1) = crate::alloc::snapshot();
     let (consumed, outcome) = match r {
         Ok((h, a, rd)) => {
@@ -107,23 +118,31 @@ fn op_cost(line: &str, args: &[SExp]) -> CaseResult {
         // doubling: the cost at n must not exceed 2.5 x the cost at n/2 (plus slack)
         if let Some(half) = crate::malformed::family(&kind, n / 2) {
             let h = measure(&half);
-            // a suspected super-linear step is measured again and reported only when all four paired measurements
-            // show it: one slow run on a busy machine is not a property of the parser
-            let steep = |a: f64, b: f64| a > 0.1 && a > 3.0 * b + 0.03;
-            let (mut ms, mut hs) = (m.secs, h.secs);
-            let mut all = steep(ms, hs);
-            if all {
-                for _ in 0..3 {
-                    let (a, b) = (measure(&input).secs, measure(&half).secs);
-                    all = all && steep(a, b);
-                    if a / b.max(1e-9) < ms / hs.max(1e-9) {
-                        ms = a;
-                        hs = b;
+            // super-linear time: a quadratic algorithm quadruples its time on EVERY doubling, whereas caches, page
+            // faults and hash-map growth give a single step.  Reported only when two consecutive doublings
+            // (n/4 -> n/2 -> n) are both steeper than 3x / 2.8x in thread CPU time, the largest run takes at
+            // least 100 ms, and three repetitions of the whole measurement agree.
+            let steep = |a: f64, b: f64, c: f64| a > 0.1 && c > 0.002 && a > 3.0 * b && b > 2.8 * c;
+            let quarter = crate::malformed::family(&kind, n / 4);
+            let mut all = false;
+            let (mut ms, mut hs, mut qs) = (m.secs, h.secs, 0.0);
+            if let Some(q) = &quarter {
+                qs = measure(q).secs;
+                all = steep(ms, hs, qs);
+                if all {
+                    for _ in 0..3 {
+                        let (a, b, c) = (measure(&input).secs, measure(&half).secs, measure(q).secs);
+                        all = all && steep(a, b, c);
+                        if a / b.max(1e-9) < ms / hs.max(1e-9) {
+                            ms = a;
+                            hs = b;
+                            qs = c;
+                        }
                     }
                 }
             }
             if all {
-                oracle = Some(format!("family `{}`: {:.0} ms for {} input bytes but {:.0} ms for {} (time grows {:.1}x on doubling, least of four measurements)", kind, ms * 1e3, m.len, hs * 1e3, h.len, ms / hs.max(1e-9)));
+                oracle = Some(format!("family `{}`: {:.0} ms of CPU time for {} input bytes, {:.0} ms for half of it and {:.0} ms for a quarter (time grows {:.1}x and {:.1}x on doubling; least of four measurements)", kind, ms * 1e3, m.len, hs * 1e3, qs * 1e3, ms / hs.max(1e-9), hs / qs.max(1e-9)));
             } else if m.bytes as f64 > 2.5 * h.bytes as f64 + 65536.0 {
                 oracle = Some(format!("family `{}`: {} bytes allocated for {} input bytes but {} for {} (growth factor {:.1} on doubling)", kind, m.bytes, m.len, h.bytes, h.len, m.bytes as f64 / h.bytes.max(1) as f64));
             }
